@@ -164,10 +164,10 @@ def correspond(rng, tier, driver):
     batch = []
     for b, srng in case_stream(rng, tier):
         style = tc.Style(srng)
-        code, nb = tc.render(b, style)
+        code, nb = tc.render_safe(b, style)
         variant = srng.choice([0, 0, 0, 1, 2, 3]) if srng is not None else 0
         res.count("call-variant:%d" % variant)
-        res.count("eol:%r names:%s" % (style.eol, "ascii" if style.names is tc.NAMES else "non-ascii"))
+        res.count("eol:%r names:%s" % (style.eol, "ascii" if style.names is tc.NAMES else ("builtin-like" if style.names is tc.BUILTIN_LIKE_NAMES else "non-ascii")))
         batch.append((b, code, nb, tc.run_real(code, style.names, variant)))
         if len(samples) < 5:
             samples.append(code)
@@ -200,7 +200,7 @@ def search(rng, tier, broken, corr):
         kinds = [("if",), ("if", "wh"), ("wh", "for", "if")][i % 3]
         b = tc.gen_pattern(rng, kinds) if i % 2 else tc.gen_case(rng, kinds=kinds)
         style = tc.Style(rng)
-        code, nb = tc.render(b, style)
+        code, nb = tc.render_safe(b, style)
         sink.consider(b, code, nb, tc.run_real(code, style.names, rng.choice([0, 1, 2, 3])))
     failures = []
     for key, (sig, what, b) in sink.first.items():
